@@ -291,7 +291,7 @@ def keywords : List Codes := [
   n!"delete", n!"unwind", n!"union", n!"and", n!"or", n!"not", n!"in", n!"is", n!"null", n!"true", n!"false", n!"distinct",
   n!"create", n!"merge", n!"order", n!"by", n!"limit", n!"skip", n!"on", n!"xor", n!"starts", n!"ends", n!"contains",
   n!"case", n!"when", n!"then", n!"else", n!"end", n!"exists", n!"all", n!"any", n!"none", n!"single", n!"asc", n!"desc",
-  n!"foreach", n!"index", n!"if", n!"for"]
+  n!"foreach", n!"index", n!"if", n!"for", n!"constraint", n!"require", n!"unique", n!"drop", n!"assert"]
 
 def isKw (x : Codes) : Bool := keywords.contains (lower x)
 
@@ -371,7 +371,7 @@ def clauseWords : List Codes := [
 /-- words that must be followed by an operand -/
 def needsOperand : List Codes := [
   n!"where", n!"set", n!"return", n!"with", n!"and", n!"or", n!"xor", n!"not", n!"remove", n!"delete", n!"unwind", n!"match",
-  n!"yield", n!"as", n!"in", n!"by", n!"on", n!"limit", n!"skip", n!"call", n!"when", n!"then", n!"else"]
+  n!"yield", n!"as", n!"in", n!"by", n!"limit", n!"skip", n!"call", n!"when", n!"then", n!"else"]
 /-- words that cannot be that operand -/
 def badFollowerWords : List Codes := [
   n!"match", n!"optional", n!"where", n!"return", n!"with", n!"call", n!"yield", n!"set", n!"remove", n!"detach", n!"delete",
@@ -391,6 +391,8 @@ def enders : List Codes := [
   n!"return", n!"set", n!"remove", n!"delete", n!"create", n!"merge", n!"call", n!"yield", n!"foreach"]
 def subClauses : List Codes := [n!"order", n!"skip", n!"limit"]
 def patternClauses : List Codes := [n!"match", n!"create", n!"merge"]
+/-- the word after these is the NAME of an index / constraint, not a variable -/
+def schemaNameWords : List Codes := [n!"index", n!"constraint"]
 
 def isOpener (c : Nat) : Bool := c == cp%'(' || c == cp%'[' || c == cp%'{'
 def isCloser (c : Nat) : Bool := c == cp%')' || c == cp%']' || c == cp%'}'
@@ -485,7 +487,7 @@ def binds (s : St) (p2 p1 nx : Option Tok) : Bool :=
 /-- the identifier at this position refers to a variable (not a label, property, map key, function or procedure name) -/
 def uses (p1 nx : Option Tok) (rest : List Tok) : Bool :=
   !isSym p1 cp%'.' && !isSym p1 cp%':' && !isSym nx cp%':' && !isSym nx cp%'(' &&
-  !(isSym nx cp%'.' && dottedCall rest) && !isKwT p1 n!"index"
+  !(isSym nx cp%'.' && dottedCall rest) && !kwIn p1 schemaNameWords
 
 /-- a bare variable or an alias in the item list of a WITH at depth 0 stays visible -/
 def carries (s : St) (p1 nx : Option Tok) : Bool :=
@@ -494,7 +496,7 @@ def carries (s : St) (p1 nx : Option Tok) : Bool :=
    isKwT p1 n!"as")
 
 def stepKw (s0 : St) (p1 nx : Option Tok) (lw : Codes) : St :=
-  let s : St := { s0 with emptyClause := s0.emptyClause || (needsOperand.contains lw && badFollower nx),
+  let s : St := { s0 with emptyClause := s0.emptyClause || (needsOperand.contains lw && badFollower nx && !isKwT p1 n!"on"),
                           operand := s0.operand || (boolWords.contains lw && !operandEnd p1) }
   let withClause := lw == n!"with" && !(isKwT p1 n!"starts" || isKwT p1 n!"ends")
   let s1 : St :=
